@@ -91,11 +91,21 @@ func tagsOf(s *scenario) []string {
 			pos = "victim-only"
 		}
 	}
-	return []string{"live-" + s.live, "kind-" + s.kind, "instant-" + s.instant, crit, pos,
+	tags := []string{"live-" + s.live, "kind-" + s.kind, "instant-" + s.instant, crit, pos,
 		fmt.Sprintf("tasks-%d", len(s.tasks)), fmt.Sprintf("hosts-%d", len(hosts))}
+	if isReconKind(s.kind) {
+		tags = append(tags, "via-reconciliation")
+	} else {
+		tags = append(tags, "via-direct")
+	}
+	return tags
 }
 
 func valid(s *scenario) bool {
+	// a terminal state learnt through reconciliation needs the core to have been cut off — and nothing else does
+	if isReconKind(s.kind) != isDropInstant(s.instant) {
+		return false
+	}
 	if s.instant == "race" || s.instant == "racelate" {
 		if len(s.tasks) < 2 {
 			return false
@@ -161,6 +171,17 @@ func generate(tier string, r *rng.R) []fw.Case {
 			add(mk(live, one, k, "idle"))
 		}
 	}
+	// stratum: the task dies while the core is cut off from the master; the terminal state arrives only as the
+	// master's reconciliation answer after the re-subscription — every (live, terminal state | whole agent) with a
+	// critical and a non-critical victim on a random layout, the subscription ended cleanly or by a reset, + the
+	// one-task worlds (added after the older strata: those are unchanged for a given seed)
+	for _, live := range []string{"CONFIGURED", "RUNNING"} {
+		for _, k := range reconKinds {
+			add(mk(live, pickLayout(true, live, k, "drop"), k, rng.Pick(r, dropInstants)))
+			add(mk(live, pickLayout(false, live, k, "drop"), k, rng.Pick(r, dropInstants)))
+			add(mk(live, one, k, "drop"))
+		}
+	}
 	if tier == "thorough" {
 		// a handful of worlds that sit in the core's 90 s response timeout
 		for _, sc := range []*scenario{
@@ -175,6 +196,9 @@ func generate(tier string, r *rng.R) []fw.Case {
 			l := rng.Pick(r, ls)
 			add(mk(rng.Pick(r, []string{"CONFIGURED", "RUNNING"}), l, rng.Pick(r, kinds), rng.Pick(r, []string{"idle", "race", "racelate", "burst", "burst"})))
 		}
+		for n := len(out) + 300; len(out) < n; {
+			add(mk(rng.Pick(r, []string{"CONFIGURED", "RUNNING"}), rng.Pick(r, ls), rng.Pick(r, reconKinds), rng.Pick(r, dropInstants)))
+		}
 	}
 	return out
 }
@@ -186,6 +210,9 @@ func search(r *rng.R) []fw.Case {
 	seen := map[string]bool{}
 	for len(out) < 250 {
 		s := mk(rng.Pick(r, []string{"CONFIGURED", "RUNNING"}), rng.Pick(r, ls), rng.Pick(r, kinds), rng.Pick(r, []string{"idle", "race", "racelate", "burst"}))
+		if r.P(1, 4) {
+			s.kind, s.instant = rng.Pick(r, reconKinds), rng.Pick(r, dropInstants)
+		}
 		if !valid(s) || seen[s.String()] {
 			continue
 		}
@@ -218,9 +245,19 @@ func shrinkCands(input string) []string {
 		}
 		push(&c)
 	}
-	if s.instant != "idle" {
+	if s.instant != "idle" && !isDropInstant(s.instant) {
 		c := *s
 		c.instant = "idle"
+		push(&c)
+	}
+	if s.instant == "dropabrupt" {
+		c := *s
+		c.instant = "drop"
+		push(&c)
+	}
+	if s.kind == "RAGENT" {
+		c := *s
+		c.kind = "RLOST"
 		push(&c)
 	}
 	return out
@@ -270,7 +307,9 @@ func init() {
 		Nontrivial: nontrivial,
 		Rule: "one simulated world per case: workflow of 1..3 task roles (critical or not) on 1..2 hosts, environment brought to CONFIGURED or RUNNING through the gRPC API, " +
 			"one failure (TASK_FAILED/LOST/KILLED/ERROR/FINISHED status, executor FAILURE, agent FAILURE with or without task updates, TASK_INTERNAL_ERROR device event) of a chosen victim, " +
-			"idle or while START_ACTIVITY/STOP_ACTIVITY is in flight (parked at another task's reply released at once / 900 ms later, all replies and the failure back to back, or parked at the victim's own reply); " +
+			"idle or while START_ACTIVITY/STOP_ACTIVITY is in flight (parked at another task's reply released at once / 900 ms later, all replies and the failure back to back, or parked at the victim's own reply), " +
+			"or (kinds R…, instants drop/dropabrupt) the victim — or every task of its agent — dies while the core is cut off from the master (subscription ended cleanly or reset) and its terminal state " +
+			"TASK_FAILED/LOST/KILLED/ERROR/FINISHED reaches the core only as the master's answer (REASON_RECONCILIATION) to the implicit RECONCILE of the re-subscription; " +
 			"observed after the settle window: environment state, state/status of the root and of every task role, run events, end-of-run stamps, STOP commands, result of the racing transition; " +
 			"quick = every (live state, kind, instant) with a critical and a non-critical victim on a random layout; non-trivial = >= 2 tasks or a critical victim; distinct by input text",
 		Shrink:      shrinkCands,
